@@ -6,6 +6,16 @@ ROOT = "/verif"
 
 # id -> (engine, category, technique, level text, level note, design ref)
 CHECKS = {
+    "C07": ("enum", "model_checking",
+            "bounded-exhaustive enumeration of command names, argument values of every Argument kind (incl. user-defined renderers) and all sequences of <=4/5 accepted/rejected add_argument calls; differential oracle (command == command built from the accepted calls alone)",
+            "All names of length <=3/4 over 14 byte classes plus every string within edit distance 1 / prefix / extension of the three list keywords; every argument string of length <=3/4 over 12 classes with LF at every position through &str/String/Cow, integer/bool/Duration values and user-defined renderers emitting every byte string of length <=3/4 over 6 bytes; every sequence of <=4/5 add_argument calls over a menu of 4 accepted and 4 rejected values: acceptance implies a legal name / no LF, rejection leaves the command == its clone, one LF per sent command, N+2 lines per list.",
+            "Trusted: the statement's alphabet (letters, digits, underscore) and the three keyword spellings; renderers only append.",
+            "DESIGN.md section 4 C07"),
+    "C11": ("enum", "model_checking",
+            "bounded-exhaustive enumeration of filter trees (<=3 leaves, nesting <=3) x leaf kinds x value strings over a class alphabet, decoded through ports of MPD's tokenizer and filter grammar and compared with a mirror tree",
+            "Every tree shape with <=3 leaves built through new/tag/tag_exists/tag_absent/negate/!/and, every assignment of the 8 leaf kinds, and at one leaf at a time every value of length <=3/4 over 11 symbols (quotes of both kinds, backslash, parentheses, !, =, blank, non-ASCII, AND), rendered through find, count, list and count-group; the argument located by the tokenizer port and parsed by the filter-grammar port must equal the mirror tree up to AND associativity with byte-identical values.",
+            "Trusted: mpdref::tokenizer and mpdref::filter as ports of MPD's two unescaping layers (self-tested on the documented examples); special filter types are outside the domain.",
+            "DESIGN.md section 4 C11"),
     "C02": ("segmc", "model_checking",
             "exhaustive enumeration of read segmentations (all compositions for short streams, all <=2/3-cut segmentations, every single cut and boundary-neighbourhood pairs for streams around the 4 KiB buffer and its doublings) x Pending answers x {blocking, async}; differential oracle against the one-read baseline",
             "For every byte stream of the pool (well-formed grammar streams, all truncations and single-byte corruptions of 8 two-response streams, long responses whose boundaries sit at 4096/8192/16384 +-1, binary payloads of 4000-8300 bytes) every segmentation of the stated sets is replayed on the real Connection and AsyncConnection by a scripted reader; the sequence of responses and the terminal outcome must equal the one-read baseline and agree between the flavours.",
